@@ -42,6 +42,17 @@ def mutable_form(mut, variant):
   return [names, tuple(names), set(names), DenyList(DenyList(names))][variant % 4]
 
 
+def filter_snapshot(f):
+  """A comparable image of a `mutable` filter object (the caller may reuse it)."""
+  if isinstance(f, DenyList):
+    return ('DenyList', filter_snapshot(f.deny))
+  if isinstance(f, (set, frozenset)):
+    return (type(f).__name__, tuple(sorted(f)))
+  if isinstance(f, (list, tuple)):
+    return (type(f).__name__, tuple(f))
+  return (type(f).__name__, f)
+
+
 def rngs_for(streams):
   return {s: jax.random.key(SEEDS[s]) for s in sorted(streams)}
 
@@ -273,12 +284,15 @@ def replay(beh, idx, seed):
   elif container == 2:
     variables = {k: (freeze(v) if i % 2 == 0 else v) for i, (k, v) in enumerate(variables.items())}
   snap_vars = dsl.snapshot(variables)
+  snap_filter = filter_snapshot(mutable)
   r2 = run_phase(body, 'apply', variables, cfg['streams'], mutable)
   what = f'apply(mutable={mutable!r}, rngs={sorted(cfg["streams"])}, edit={cfg["edit"]})'
   if dsl.snapshot(variables) != snap_vars:
     add('C01', f'{what}: the variables passed in were modified in place')
     if cfg['edit'] == 'none':
       add('C02', f'{what}: the variables returned by init were changed by apply (re-applying them cannot reproduce init)')
+  if filter_snapshot(mutable) != snap_filter:
+    add('C01', f'{what}: the `mutable` filter object passed by the caller was modified: {filter_snapshot(mutable)} (was {snap_filter})')
   if r2['status'] != ap['status']:
     prop = 'C02' if any(x in (ap['status'] + r2['status']) for x in ('NameInUse', 'NotFound', 'Shape')) else \
            ('C09' if 'InvalidRng' in (ap['status'] + r2['status']) else 'C01')
@@ -341,7 +355,22 @@ def replay(beh, idx, seed):
         o = rr[0] if mutable is not False or isinstance(rr, tuple) else rr
         if not np.array_equal(np.asarray(o), r2['out']):
           add('C01', f'{what}: primary output changes with capture_intermediates=True')
+        if filter_snapshot(mutable) != snap_filter:
+          add('C01', f'{what}: the `mutable` filter object passed by the caller was modified: {filter_snapshot(mutable)} (was {snap_filter})')
       except Exception as e:
         if 'intermediates' in set(cfg['mut']) or mutable is not False:
           pass
+      # the filter given as a Python set that the caller reuses (any collection of names is a filter)
+      if cfg['mut'] and 'zz' not in cfg['mut'] and r2['status'] == 'returned':
+        mset = set(cfg['mut'])
+        try:
+          dsl.Root(body=body).apply(variables, [], rngs=rngs_for(cfg['streams']) or None, mutable=mset, capture_intermediates=True)
+        except Exception:
+          pass
+        if mset != set(cfg['mut']):
+          add('C01', f'{what}: apply(..., mutable=<set>, capture_intermediates=True) modified the caller\'s set: now {sorted(mset)}')
+        else:
+          r5 = run_phase(body, 'apply', variables, cfg['streams'], mset)
+          if r5['status'] == 'returned' and r5['ret'] is not None and r2['ret'] is not None and set(r5['ret'].keys()) != set(r2['ret'].keys()) - {'__poison__'}:
+            add('C01', f'{what}: with the filter passed as a set the returned collections are {sorted(r5["ret"].keys())}')
   return viol, {'apply': True}
